@@ -857,7 +857,7 @@ def probe_counters(bed, name, p):
     gets '<type>_<stored n + 1>' where n is the counter of the pristine file"""
     cnt = bed.state[name].obs["counters"]
     fmt = bed.state[name].obs["dialect"].get("fmt")
-    fts = sorted(k for k in cnt if k in ("exon", "CDS", "region")) or ["exon"]
+    fts = sorted(k for k in cnt if k in ("exon", "CDS", "region")) or ["probetype"]      # (a type of its own: explicit ids may be shaped like exon_1)
     db = gffutils.FeatureDB(p)
     try:
         new = [Feature(seqid="chrP", source="probe", featuretype=ft, start=1, end=2, strand="+", attributes={"Note": ["probe"]})
